@@ -39,7 +39,13 @@ pub fn main(tier: &str, seed: u64, n_override: Option<u64>) {
             // 2-3 (swing q3 about q1, which keeps 1-3)
             let d = |a: &Point3<f64>, b: &Point3<f64>| (a - b).norm();
             match (idx / 8) % 3 {
-                0 => { let dir = (q2 - q1).normalize(); q2 = q2 + dir * 0.0065; }
+                0 => {
+                    // half of them right at the edge of the 5 mm guard (micrometres beyond it), stretching or shrinking the side
+                    let edge = (idx / 24) % 2 == 1;
+                    let delta = if edge { 0.005 + rng.range(0.0, 1.0).powi(2) * 4e-5 + 2e-8 } else { 0.0065 };
+                    let sgn = if edge && rng.bool() && (q2 - q1).norm() > 0.1 { -1.0 } else { 1.0 };
+                    let dir = (q2 - q1).normalize(); q2 = q2 + dir * (sgn * delta);
+                }
                 1 => {
                     let ax = nalgebra::Unit::new_normalize((q1 - q2).cross(&(q3 - q2)));
                     let before = d(&q1, &q3);
@@ -58,7 +64,11 @@ pub fn main(tier: &str, seed: u64, n_override: Option<u64>) {
             expect = "not_isometry";
         }
         if kind == 4 { // perturb below the tolerance
-            let dir = (q3 - q1).normalize(); q3 = q3 + dir * 0.003; expect = "ok_perturbed";
+            // half of them micrometres inside the 5 mm guard, stretching or shrinking the side
+            let edge = (idx / 8) % 2 == 1;
+            let delta = if edge { 0.005 - rng.range(0.0, 1.0).powi(2) * 4e-5 - 2e-8 } else { 0.003 };
+            let sgn = if edge && rng.bool() && (q3 - q1).norm() > 0.1 { -1.0 } else { 1.0 };
+            let dir = (q3 - q1).normalize(); q3 = q3 + dir * (sgn * delta); expect = "ok_perturbed";
         }
         if kind == 5 {
             // collinear target: the guard order is congruence, source, target, and a collinear target with exactly congruent distances
@@ -92,6 +102,12 @@ pub fn main(tier: &str, seed: u64, n_override: Option<u64>) {
             continue;
         }
         if kind == 5 { cross = (p2 - p1).cross(&(p3 - p1)).norm(); }
+        if kind == 3 || kind == 4 {
+            let dd = |a: &Point3<f64>, b: &Point3<f64>| (a - b).norm();
+            let mm = (dd(&p1, &p2) - dd(&q1, &q2)).abs().max((dd(&p1, &p3) - dd(&q1, &q3)).abs()).max((dd(&p2, &p3) - dd(&q2, &q3)).abs());
+            if (mm - 0.005).abs() < 1e-9 { continue; }
+            expect = if mm > 0.005 { "not_isometry" } else { "ok_perturbed" };
+        }
         let res = Frame::frame(p1, p2, p3, q1, q2, q3);
         let got = classify(&res);
         let mut direct = "ok".to_string(); let mut class = String::new();
